@@ -317,7 +317,13 @@ impl<'a> Sim<'a> {
                     "C16", "loop-does-not-terminate", "budget",
                     format!("the strategy loop on a {}-date dataset was still issuing requests after {} requests ({} snapshots so far)", self.case.dataset.n(), self.sh.requests.get(), self.strat.get_history().len()),
                 );
-            } else if p.contains("Client is attempting to trade a portfolio with zero value") {
+            } else if p.contains("Client is attempting to trade a portfolio with zero value") || {
+                // recognised by the condition as well as by the text (a reworded message must not alarm)
+                alator::verif::set_positions_seed(Some(0));
+                let zero = catch(|| self.strat.verif_brkr().get_liquidation_value() == 0.0).unwrap_or(false);
+                alator::verif::set_positions_seed(None);
+                zero
+            } {
                 // documented panic (the suite's diff_panics_if_brkr_has_no_cash expects it): a portfolio
                 // whose value is exactly zero is outside the domain; the run ends here, unjudged
                 self.ctx.bump("skipped_out_of_domain_zero_value_portfolio");
